@@ -68,6 +68,7 @@ type VC struct {
 	callees       map[string]bool
 	intMode       bool
 	ringMode      bool
+	callPC        map[*ssa.Call]string // path condition at each executed call instruction
 	applyMarks    []applyMark // item ranges of callee-contract applications (vacuity guard)
 	returnMarks   []reachMark // path conditions of the return instructions (vacuity guard)
 	afterEntry    bool
